@@ -10,7 +10,17 @@ import (
 // VerifReset re-creates the package-level flush machinery inside a controlled
 // execution and starts the background flusher the package normally starts
 // from init().
-func VerifReset() {
+func VerifReset() { VerifResetCap(0) }
+
+// VerifResetCap additionally replaces the log queue by one of the given
+// capacity (0: keep the package's own), so that "queue full" is reachable with
+// a handful of entries.
+func VerifResetCap(capacity int) {
+	if capacity > 0 {
+		logQueue = make(chan *logValue, capacity)
+	} else if cap(logQueue) != 10000 {
+		logQueue = make(chan *logValue, 10000)
+	}
 	syncDone, syncCancel = context.WithCancel(context.Background())
 	asyncDone, asyncCancel = context.WithCancel(context.Background())
 	loggerMutex.Lock()
